@@ -181,9 +181,9 @@ pub fn run(run: &Run) {
     sweep(run, 5, None);
     run.set_extra("node_bound_full", json!(5));
     if run.tier == Tier::Thorough {
-        sweep(run, 6, Some(10));
-        run.set_extra("n6_max_edges", json!(10));
-        run.cap("n=6 restricted to edge sets with at most 10 edges (all such sets are enumerated)");
+        sweep(run, 6, Some(12));
+        run.set_extra("n6_max_edges", json!(12));
+        run.cap("n=6 restricted to edge sets with at most 12 edges (all such sets are enumerated)");
     }
     run.assume("graphs beyond the node bound are not explored (the property's 'randomly beyond' part is sampling and not done)");
 }
